@@ -302,7 +302,7 @@ func cmdCheck(args []string) int {
 			}
 		}
 	}
-	timeout := 10
+	timeout := 30 // per obligation; the slowest claimed obligation needs about 8 s, everything else under 5 s
 	confirm := false
 	if *tier == "thorough" {
 		timeout = 60
